@@ -10,7 +10,7 @@ import TrompModel.Gen.Cxx.RingUnlink
 namespace Tromp.Cxx
 
 /-- `list_elem<T>::operator=(list_elem&&)` — translated from include/trompeloeil/mock.hpp:1335 -/
-def ring_move_assign (this r : Ring.Ptr) (h0 : Ring.Heap) : Ring.Heap := Id.run do
+def ring_move_assign (this r : Ring.Ptr) (h0 : Ring.Heap Ring.Ptr) : Ring.Heap Ring.Ptr := Id.run do
   let mut h := h0
   if (this != r) then
     h := h.setNext this (h.next r)
